@@ -47,8 +47,9 @@ theorem pruned_none (f : Forest) : pruned f (fun _ => false) = f := by
   unfold pruned
   rw [pruneTextKids_id _ _ (fun _ _ => rfl)]
 
-/-- The removal loop, started after the handles in `done` have been deleted. -/
-theorem fold_remove {f : Forest} (nd : f.allHandles.Nodup) (hv : validList true f.roots = true) :
+/-- The removal loop (consolidation off), started after the handles in `done` have been deleted. -/
+theorem fold_remove {f : Forest} {b : Bool} (nd : f.allHandles.Nodup) (hv : validList b f.roots = true)
+    (hc : f.consolidation = false) :
     ∀ (L : List Nat) (done : Nat → Bool), L.Nodup → (∀ n ∈ L, done n = false) →
       (∀ n ∈ L, ∃ k anc, Occurs f k anc ∧ k.handle = n ∧ k.value.isText = true) →
       L.foldl (fun acc n => (acc.remove n).1) (pruned f done) = pruned f (fun h => done h || L.contains h)
@@ -59,11 +60,11 @@ theorem fold_remove {f : Forest} (nd : f.allHandles.Nodup) (hv : validList true 
     have hkeep : (k.value.isText && done k.handle) = false := by
       rw [hdone _ List.mem_cons_self]; simp
     have o' := o.prune done hv hkeep
-    have step := remove_text (pruned_nodup done nd) (pruned_valid done hv) o'
+    have step := remove_text_off (pruned_nodup done nd) (show (pruned f done).consolidation = false from hc) o'
       (by rw [pruneText_value]; exact hk)
     rw [pruneText_handle] at step
     rw [List.foldl_cons, step, pruned_pruned]
-    rw [fold_remove nd hv L _ hL
+    rw [fold_remove nd hv hc L _ hL
       (fun m hm => by
         have : m ≠ k.handle := fun e => hn (e ▸ hm)
         simp [hdone m (List.mem_cons_of_mem _ hm), this])
@@ -72,8 +73,14 @@ theorem fold_remove {f : Forest} (nd : f.allHandles.Nodup) (hv : validList true 
     funext h
     simp only [List.contains_cons, Bool.or_assoc]
 
+/-- The forest the loop runs on: consolidation switched off, nothing else changed. -/
+def consOff (f : Forest) : Forest := { f with consolidation := false }
+
+theorem pruned_consOff (f : Forest) (S : Nat → Bool) :
+    { pruned (consOff f) S with consolidation := f.consolidation } = pruned f S := rfl
+
 /-- `remove_insignificant_whitespace` deletes exactly the specification's set. -/
-theorem strip_eq_pruned {f : Forest} (nd : f.allHandles.Nodup) (hv : validList true f.roots = true)
+theorem strip_eq_pruned {f : Forest} {b : Bool} (nd : f.allHandles.Nodup) (hv : validList b f.roots = true)
     {t : HTree} {anc : List HTree} (o : Occurs f t anc) :
     f.removeInsignificantWhitespace t.handle = pruned f (fun h => (specTopRemoved anc t).contains h) := by
   unfold Forest.removeInsignificantWhitespace
@@ -81,11 +88,15 @@ theorem strip_eq_pruned {f : Forest} (nd : f.allHandles.Nodup) (hv : validList t
   simp only
   have hnd : ((Forest.descendantsNormal t).filter f.isInsignificantWhitespace).Nodup :=
     (List.filter_sublist.trans (descendantsNormal_sublist t)).nodup (o.nodup nd)
-  have := fold_remove nd hv _ (fun _ => false) hnd (fun _ _ => rfl)
-    (fun n hn => collected_text (List.mem_filter.1 hn).2)
+  have := fold_remove (f := consOff f) (b := b) nd hv rfl _ (fun _ => false) hnd (fun _ _ => rfl)
+    (fun n hn => by
+      obtain ⟨k, anc, ok, h1, h2⟩ := collected_text (List.mem_filter.1 hn).2
+      exact ⟨k, anc, Occurs.of_roots_eq (f := f) (f' := consOff f) rfl ok, h1, h2⟩)
   rw [pruned_none] at this
+  show { List.foldl _ (consOff f) _ with consolidation := f.consolidation } = _
   rw [this, toRemove_eq nd hv o]
-  simp
+  simp only [Bool.false_or]
+  exact pruned_consOff f _
 
 /-! ### the specification's set lies below the start node -/
 
@@ -180,7 +191,7 @@ theorem topDeleted_text {anc : List HTree} {t : HTree} (h : topDeleted anc t = t
   rw [hs]; rfl
 
 /-- The start node after the call: deleted, or the `specStrip` of the subtree. -/
-theorem strip_get? {f : Forest} (nd : f.allHandles.Nodup) (hv : validList true f.roots = true)
+theorem strip_get? {f : Forest} {b : Bool} (nd : f.allHandles.Nodup) (hv : validList b f.roots = true)
     {t : HTree} {anc : List HTree} (o : Occurs f t anc) :
     (f.removeInsignificantWhitespace t.handle).get? t.handle = specTop anc t := by
   rw [strip_eq_pruned nd hv o]
@@ -209,7 +220,7 @@ theorem strip_get? {f : Forest} (nd : f.allHandles.Nodup) (hv : validList true f
     simp [specTopRemoved, hd]
 
 /-- The positions that survive. -/
-theorem strip_occurs {f : Forest} (nd : f.allHandles.Nodup) (hv : validList true f.roots = true)
+theorem strip_occurs {f : Forest} {b : Bool} (nd : f.allHandles.Nodup) (hv : validList b f.roots = true)
     {t : HTree} {anc : List HTree} (o : Occurs f t anc) {q : HTree} {ancq : List HTree} (oq : Occurs f q ancq)
     (hq : q.handle ∉ specTopRemoved anc t) :
     let S := fun h => (specTopRemoved anc t).contains h
